@@ -255,9 +255,9 @@ func init() {
 			}
 			// files of at most one line end before their forwarder may have started: the schedules in
 			// which shutdown overtakes a line live here, so these tiny runs are repeated
-			reps := 25
+			reps := 120
 			if g.thorough() {
-				reps = 250
+				reps = 1200
 			}
 			for rep := 0; rep < reps; rep++ {
 				for k, fs := range []string{"1/0", "0/1", "0/0", "1/0,0/0", "0/1,1/0"} {
